@@ -17,10 +17,11 @@ from . import _simcases as S
 RULE = (
     "case = one simulation of a device with 2-4 terminals, terminal_psi in {0, None, 0.5, 1, 0.3+0.4j}, field in "
     "{zero, uniform, ramp}, currents in {none, const, callable}, screening on/off; or a differential pair "
-    "(unpinned terminals, zero current) vs (no terminals). non-trivial = >= 10 update returns checked on a device "
+    "(unpinned terminals, zero current) vs (no terminals); or one Device object solved, moved in place (translate(inplace=True) / "
+    "translation() context), solved again and solved once more after moving back. non-trivial = >= 10 update returns checked on a device "
     "with >= 2 terminal sites; distinct = distinct spec"
 )
-REQUIRED_COUNTERS = ["pin_value_checks", "pinned_row_checks", "free_site_checks", "unpinned_equals_noterminal_checks", "seeded_runs"]
+REQUIRED_COUNTERS = ["pin_value_checks", "pinned_row_checks", "free_site_checks", "unpinned_equals_noterminal_checks", "seeded_runs", "moved_device_runs"]
 CASE_TIMEOUT = {"quick": 600, "thorough": 1500}
 ASSUMPTIONS = ["terminal site membership is taken from Device.terminal_info() (C07)"]
 
@@ -54,6 +55,16 @@ def gen_cases(tier, seed):
         drive = {"A": S.field_spec(rng, dev, o, ["uniform", "zero"][k % 2], b=0.2), "currents": S.current_spec(rng, dev, o, ["const", "none"][(k // 2) % 2], strength=0.15)}
         cases.append({"kind": "seeded", "device": dev, "options": o, "drive": drive, "monitors": ["pin"],
                       "seed_terminal_psi": ["none", 1.0, 0.0, "none"][k % 4], "terminal_psi": [0.0, 0.5, "none", [0.3, 0.4]][k % 4], "cost": 10})
+    nm = 3 if tier == "quick" else 18
+    for k in range(nm):
+        # one Device object used for several solves, moved in place between them
+        dev = zoo.gen_device(rng, n_terminals=[2, 3, 4][k % 3], n_holes=int(k % 3 == 2), probes=0, size="small")
+        o = S.base_options(rng, adaptive=bool(k % 2), steps=30)
+        o["terminal_psi"] = [0.0, 0.5, [0.3, 0.4]][k % 3]
+        drive = {"A": S.field_spec(rng, dev, o, "uniform", b=0.2), "currents": S.current_spec(rng, dev, o, ["const", "none"][k % 2], strength=0.15)}
+        ang = float(rng.uniform(0, 2 * np.pi))
+        cases.append({"kind": "moved", "device": dev, "options": o, "drive": drive, "monitors": ["pin"], "move": ["translate_inplace", "translation_context"][k % 2],
+                      "shift_frac": [[0.3, 0.03][(k // 2) % 2] * np.cos(ang), [0.3, 0.03][(k // 2) % 2] * np.sin(ang)], "cost": 12})
     m = 3 if tier == "quick" else 20
     for k in range(m):
         dev = zoo.gen_device(rng, n_terminals=[2, 3, 4][k % 3], probes=0, size="small")
@@ -62,6 +73,59 @@ def gen_cases(tier, seed):
         drive = {"A": S.field_spec(rng, dev, o, ["uniform", "ramp", "zero"][k % 3], b=0.3)}
         cases.append({"kind": "diff", "device": dev, "options": o, "drive": drive, "cost": 10})
     return cases
+
+
+def _run_moved(spec):
+    """solve; move the device in place; solve; (leave the context / move back); solve. The pin monitor
+    derives the terminal sites of every run from the polygons' current vertices and the mesh in use."""
+    import contextlib
+
+    device, why = zoo.try_build_device(spec["device"])
+    if device is None:
+        return {"violations": [], "counters": {"refused_mesh": 1}, "classes": ["refused"], "nontrivial": False}
+    pts = np.asarray(device.film.points)
+    size = float(np.ptp(pts, axis=0).max())
+    dx, dy = (size * float(f) for f in spec["shift_frac"])
+    V, C = [], {}
+    n_ok = 0
+
+    def one(label):
+        nonlocal n_ok
+        out = S.run_sim_case(spec, "C06", device=device)
+        if out.get("classes") == ["refused"]:
+            if label != "before_move" and "covers no boundary edge" in out.get("refused_reason", ""):
+                # the same device solved before the rigid move: terminals that no longer find their boundary sites are a
+                # change of behaviour (an exactly singular factorisation is rounding-dependent and stays a refusal)
+                V.append({"kind": "run_on_moved_device_refused", "mechanism": "moved_device_run_raised", "detail": {"phase": label, "move": spec["move"]}})
+            return False
+        for v in out["violations"]:
+            v.setdefault("detail", {})["phase"] = label
+            V.append(v)
+        for k, v in out["counters"].items():
+            C[k] = C.get(k, 0) + v
+        exc = out["sample"].get("exception")
+        if exc is not None:
+            V.append({"kind": "run_on_moved_device_raised", "mechanism": "moved_device_run_raised", "detail": {"phase": label, "exception": exc, "move": spec["move"]}})
+        n_ok += out["counters"].get("update_calls", 0) >= 10
+        return True
+
+    if not one("before_move"):
+        return {"violations": [], "counters": {"refused_mesh": 1}, "classes": ["refused"], "nontrivial": False}
+    if V:  # the unmoved run must be clean for the moved ones to be judged
+        return {"violations": V, "counters": C, "classes": ["moved/" + spec["move"]], "nontrivial": False}
+    if spec["move"] == "translation_context":
+        ctx = device.translation(dx, dy)
+    else:
+        device.translate(dx, dy, inplace=True)
+        ctx = contextlib.nullcontext()
+    with ctx:
+        one("moved")
+    if spec["move"] != "translation_context":
+        device.translate(-dx, -dy, inplace=True)
+    one("moved_back")
+    C["moved_device_runs"] = 2
+    return {"violations": V[:10], "counters": C, "classes": ["moved/" + spec["move"], f"terminals={len(spec['device']['terminals'])}"], "nontrivial": n_ok == 3,
+            "sample": {"move": spec["move"], "shift": [dx, dy], "runs_with_10_updates": n_ok}}
 
 
 def run_case(spec):
@@ -90,6 +154,8 @@ def run_case(spec):
         out["counters"]["seeded_runs"] = 1
         out["nontrivial"] = c.get("update_calls", 0) >= 10
         return out
+    if spec["kind"] == "moved":
+        return _run_moved(spec)
     # differential pair
     tms = []
     for variant in ("with_unpinned_terminals", "without_terminals"):
